@@ -42,19 +42,25 @@ where
 
     Observable::create(move |s| {
       {
-        let last_item = &*last_item.read().unwrap();
-        let last_error = &*last_error.read().unwrap();
+        // read the stored state out first: the hand-over runs with no lock held, so the
+        // subscriber may call back into this subject from its callback
+        let last_item = last_item.read().unwrap().clone();
+        let last_error = last_error.read().unwrap().clone();
 
         if let Some(err) = last_error {
-          s.error(err.clone());
+          s.error(err);
           return;
         }
         if let Some(item) = last_item {
-          s.next(item.clone());
+          s.next(item);
         } else {
           s.complete();
           return;
         }
+      }
+      if !s.is_subscribed() {
+        // the subscriber left during the hand-over (e.g. take(1)): nothing to forward
+        return;
       }
 
       let sbsc = Arc::new(RwLock::new(None::<Subscription>));
